@@ -42,12 +42,14 @@ def access_pair_structs():
             return Field([(pos, 3)], 'u', access=acc, family='ACCPAIR'), 3
         if kind == 'n8':
             return Field([(pos, 8)], 'n', access=acc, family='ACCPAIR'), 8
+        if kind == 'i4':
+            return Field([(pos + 1, 8)], 'i', access=acc, family='ACCPAIR'), 9       # a signed field that does not end at the top bit
         if kind == 'arrb':
             return Field([(pos, 1)], 'b', arr=(2, 1), access=acc, family='ACCPAIR'), 2
         if kind == 'nc':
             return Field([(pos, 1), (pos + 2, 1)], 'u', access=acc, family='ACCPAIR'), 3
         return Field([(pos, 2)], 'e', enum=ex_enum(2), access=acc, family='ACCPAIR'), 2
-    kinds = ('b', 'u3', 'n8', 'arrb', 'nc', 'e2')
+    kinds = ('b', 'u3', 'n8', 'arrb', 'nc', 'e2', 'i4')
     accs = ('w', 'r', 'rw')
     out = []
     for k1 in kinds:
@@ -55,8 +57,9 @@ def access_pair_structs():
             for k2 in kinds:
                 for a2 in accs:
                     f1, adv = mk(k1, 0, a1)
-                    f2, _ = mk(k2, adv, a2)
-                    out.append(Struct(16, [f1, f2], family='ACCPAIR', passes=[('alpha', 'full')] if 'n8' in (k1, k2) else [('full', 'full')]))
+                    f2, adv2 = mk(k2, adv, a2)
+                    nb = 16 if adv + adv2 <= 15 else 32
+                    out.append(Struct(nb, [f1, f2], family='ACCPAIR', passes=[('alpha', 'full')] if ('n8' in (k1, k2) or 'i4' in (k1, k2)) else [('full', 'full')]))
     for a1 in accs:
         for a2 in accs:
             for a3 in accs:
@@ -444,6 +447,9 @@ def mix_struct(n):
         add([(0, 1)], 'u', arr=(n, 1), stride_explicit=(n % 2 == 0))
     elif n > 16:
         add([(n - 8, 1)], 'b', arr=(8, 1), stride_explicit=(n % 2 == 0))     # bool array whose last element is bit N-1
+    if n >= 8 and n % 4 == 0:
+        q = n // 4
+        add([(0, q), (3 * q, q), (2 * q, q), (q, q)], 'n' if n in NATIVE else 'u')      # a permutation of the whole base, first range at bit 0
     if n >= 9:
         add([(n - 9, 4), (n - 4, 4)], 'n')
         add([(n - 4, 4), (n - 9, 4)], 'i', access='rw')
@@ -562,6 +568,9 @@ def builder_structs(tier):
     sp.append(Struct(127, [Field([(0, 127)], 'u', family='BLDX')], family='BLDX', has_builder=True))
     sp.append(Struct(64, [Field([(32, 32), (0, 32)], 'n', family='BLDX')], family='BLDX', has_builder=True))
     sp.append(Struct(32, [], default=0xdeadbeef, family='BLDX', has_builder=True))                 # no writable field at all
+    for n_ in (1, 8, 12, 16, 64, 65, 100, 127, 128):
+        sp.append(Struct(n_, [], default=mask(n_), family='BLDX', has_builder=True))
+        sp.append(Struct(n_, [Field([(0, 1)], 'b', access='r', family='BLDX')], default=(0xA5A5A5A5A5A5A5A5A5A5A5A5A5A5A5A5 & mask(n_)) | 1, family='BLDX', has_builder=True))
     sp.append(Struct(32, [Field([(0, 8)], 'n', access='r', family='BLDX')], default=0x12345678, family='BLDX', has_builder=True))
     out += sp
     # struct visibility decides the visibility of the generated Partial<..> builder type
@@ -692,7 +701,8 @@ def debug_structs(tier):
         # is printed is not determined by the property)
         if n >= 8:
             fsn = []
-            for j, nm in enumerate(["f", "self_", "fmt", "value", "index", "raw", "finish", "field", "_reserved", "_pad", "__x", "x_"]):
+            for j, nm in enumerate(["f", "self_", "fmt", "value", "index", "raw", "finish", "field", "_reserved", "_pad", "__x", "x_",
+                                    "with_parity", "set_mode", "with_with_x", "reserved", "rw", "debug_struct"]):
                 fld = Field([(j % (n - 1), 2)], 'u', family='DBGNAMES')
                 fld.name = nm
                 fsn.append(fld)
